@@ -15,7 +15,9 @@
    4. the same for histories that also bind EXISTING properties - unbound ones (which may already have readers) and bound ones
       (the binding they had is destroyed first, exactly as reset() does: PropGrowMore.assign_over_bound) - and call reset()
       (coq/PropGrowMore.v: C02_network_with_late_bindings_and_resets_consistent).
-   PARTIAL: observers that write, moves and destruction between assignments are covered by
+   Such histories may also destroy properties that no binding reads (bound ones included: PropGrowMore.grow_del) - a property
+   that IS read can not be destroyed without leaving a binding whose inputs no longer all exist, which C02 does not speak about.
+   PARTIAL: observers that write and moves are covered by
    PropCheck.check_c02 on every world reached by the generated histories and by correspondence, not by the refinement. *)
 From Coq Require Import List ZArith.
 Import ListNotations.
@@ -93,8 +95,9 @@ Theorem C02_growing_network_consistent :
 Proof. exact PropGrow.grow_reachable_consistent. Qed.
 Print Assumptions C02_growing_network_consistent.
 
-(* ... and for histories in which existing properties (possibly with readers already, possibly bound already) are bound later and bound
-   properties are reset: grow_op2 = new property, assignment, read, plain observer, immediate binding of ANY property, reset *)
+(* ... and for histories in which existing properties (possibly with readers already, possibly bound already) are bound later, bound
+   properties are reset and properties nobody reads are destroyed: grow_op2 = new property, assignment, read, plain observer,
+   immediate binding of ANY property, reset, destruction of a property no live binding reads *)
 Theorem C02_network_with_late_bindings_and_resets_consistent :
   forall fn rtl fuel ops q x pr z,
     PropGrowMore.grow2_run_ok fn rtl fuel PropDefs.world0 ops ->
@@ -128,4 +131,17 @@ Example C02_rebinding_example :
   PropGrowMore.grow2_run_ok fn true 8 PropDefs.world0 ops /\
   hd_error (PropDefs.w_trace (PropDefs.run fn true 8 ops)) = Some (PropDefs.EvDone None) /\
   nth_error (PropDefs.w_trace (PropDefs.run fn true 8 ops)) 1 = Some (PropDefs.EvVal (Some 21%Z)).
+Proof. vm_compute. repeat split; reflexivity. Qed.
+
+(* non-vacuity of the destruction case: the end of a chain (a bound property with an observer) is destroyed, the rest keeps
+   working; destroying 2 while 3 reads it would not be a grow_op2 history *)
+Example C02_destruction_example :
+  let fn := fun (f : nat) (l : list Z) => Some (fold_right Z.add 0%Z l) in
+  let ops := [PropDefs.PNew 0 1%Z; PropDefs.PNew 1 2%Z;
+              PropDefs.PBind 2 (PropDefs.EOp2 0 (PropDefs.EProp 0) (PropDefs.EProp 1)) PropDefs.MImmediate;
+              PropDefs.PBind 3 (PropDefs.EOp2 1 (PropDefs.EProp 2) (PropDefs.EProp 0)) PropDefs.MImmediate;
+              PropDefs.PObserve 3 PropDefs.KChanged 7 0 None; PropDefs.PDel 3; PropDefs.PSet 0 5%Z PropDefs.WSet; PropDefs.PGet 2] in
+  PropGrowMore.grow2_run_ok fn true 8 PropDefs.world0 ops /\
+  nth_error (PropDefs.w_trace (PropDefs.run fn true 8 ops)) 1 = Some (PropDefs.EvVal (Some 7%Z)) /\
+  PropGrowMore.no_reader_b (PropDefs.run fn true 8 (firstn 5 ops)) 2 = false.
 Proof. vm_compute. repeat split; reflexivity. Qed.
